@@ -1,6 +1,7 @@
 package main
 
 import (
+	"github.com/lmorg/murex/builtins/pipes/streams"
 	"encoding/json"
 	"sync"
 	"sync/atomic"
@@ -93,6 +94,8 @@ func init() {
 							switch op.Op {
 							case "create":
 								err = named.CreatePipe(op.Name, "std", "")
+							case "expose":
+								err = named.ExposePipe(op.Name, "std", streams.NewStdin())
 							case "close":
 								err = named.Close(op.Name)
 							case "delete":
@@ -119,6 +122,33 @@ func init() {
 				pw.Wait()
 				// quiescence: every pending close has a 2 s grace period
 				time.Sleep(2600 * time.Millisecond)
+				// on a loaded machine a delayed-close timer can fire late: a name whose last successful
+				// registration change was a close is given up to 10 s more to disappear (bounded wait,
+				// not a verdict: the controller's model decides)
+				for polls := 0; polls < 100; polls++ {
+					last := map[string]c26Ev{}
+					mu.Lock()
+					for _, e := range ho.Events {
+						if !e.OK || e.Op == "get" || e.Op == "dump" {
+							continue
+						}
+						if l, ok := last[e.Name]; !ok || e.Ret > l.Ret {
+							last[e.Name] = e
+						}
+					}
+					mu.Unlock()
+					present := named.Dump()
+					pending := false
+					for n, e := range last {
+						if _, there := present[n]; there && e.Op == "close" {
+							pending = true
+						}
+					}
+					if !pending {
+						break
+					}
+					time.Sleep(100 * time.Millisecond)
+				}
 				ho.FinalCall = stamp.Add(1)
 				ho.Final = map[string]bool{}
 				for n := range named.Dump() {
